@@ -17,7 +17,8 @@
    composed step by step, and the theorems on the finite scope: mechanism = statement, the
    clause-style characterisations of each step, and arbitrary small images for the two
    post-processing steps.  Variant # "none" selects a deliberately broken mechanism which TLC must
-   reject (non-vacuity of the theorems).
+   reject (non-vacuity of the theorems; "ext_square" needs the OBLONG shapes of the scope, "ric_open_only"
+   needs a ONE-CELL solution on a cell without connections).
 
    Interpretation decisions:
    * "open" in "open pixels with no open 4-neighbour" means NOT A WALL (the docstring of
@@ -125,15 +126,24 @@ MechTarget(m, eao) ==
   IF eao THEN MapImg(a, EndCol) ELSE a
 \* isolated = walls on all four sides (broken: on all eight sides)
 OpenNb8Diag(img, y, x) == OpenAt(img, y - 1, x - 1) \/ OpenAt(img, y - 1, x + 1) \/ OpenAt(img, y + 1, x - 1) \/ OpenAt(img, y + 1, x + 1)
+\* (broken "ric_open_only": only pixels of the colour OPEN are candidates - the lone END mark of a one-cell
+\*  solution on an isolated cell survives: shortest solution x remove_isolated_cells)
 MechRemoveIsolated(img) ==
   [y \in 1..Len(img) |-> [x \in 1..Len(img[y]) |->
-     IF IsOpenPx(img[y][x]) /\ ~HasOpenNb4(img, y, x) /\ (Variant = "nbr8" => ~OpenNb8Diag(img, y, x)) THEN WALL ELSE img[y][x]]]
+     IF (IF Variant = "ric_open_only" THEN img[y][x] = OPEN ELSE IsOpenPx(img[y][x]))
+        /\ ~HasOpenNb4(img, y, x) /\ (Variant = "nbr8" => ~OpenNb8Diag(img, y, x)) THEN WALL ELSE img[y][x]]]
 \* repeat every pixel twice along both axes, then pad by one (broken: pad, then repeat)
 Repeat2(img) == [y \in 1..(2 * Len(img)) |-> [x \in 1..(2 * ImgW(img)) |-> img[(y + 1) \div 2][(x + 1) \div 2]]]
 Pad1(img) ==
   [y \in 1..(Len(img) + 2) |-> [x \in 1..(ImgW(img) + 2) |->
      IF y = 1 \/ y = Len(img) + 2 \/ x = 1 \/ x = ImgW(img) + 2 THEN WALL ELSE img[y - 1][x - 1]]]
-MechExtend(img) == IF Variant = "pad_first" THEN Repeat2(Pad1(img)) ELSE Pad1(Repeat2(img))
+\* (broken "ext_square": the width of the framed picture is computed from its HEIGHT - invisible on square mazes)
+Pad1Sq(img) ==
+  [y \in 1..(Len(img) + 2) |-> [x \in 1..(Len(img) + 2) |->
+     IF y = 1 \/ y = Len(img) + 2 \/ x = 1 \/ x = Len(img) + 2 \/ x - 1 > ImgW(img) THEN WALL ELSE img[y - 1][x - 1]]]
+MechExtend(img) == IF Variant = "pad_first" THEN Repeat2(Pad1(img))
+                   ELSE IF Variant = "ext_square" THEN Pad1Sq(Repeat2(img))
+                   ELSE Pad1(Repeat2(img))
 MechPost(img, ric, ext) ==
   IF Variant = "post_order"
     THEN (LET a == IF ext THEN MechExtend(img) ELSE img IN IF ric THEN MechRemoveIsolated(a) ELSE a)
